@@ -73,6 +73,10 @@ def run_sessions(ctx, rep, sessions, relevant, classify=None, batch=1200, color=
 
 def replay_session(ctx, data, relevant, runner=None, spec=('TraceSession.tla', 'TraceSession.cfg')):
     trace = copy.deepcopy(data['trace'])
+    if runner is None and data.get('label') == 'gdb-mode':
+        # a session that was run through GDB mode (E3-lite) is replayed the same way
+        from props import gdbbase
+        runner, spec = gdbbase.runner, gdbbase.SPEC
     if runner is not None:
         runner(trace, data.get('render'))
     else:
